@@ -189,6 +189,11 @@ pub fn comment_strategy() -> impl Strategy<Value = String> {
         1 => "[(),:#?\\[\\]>-][ -~]{0,12}",
         1 => "[A-Za-z]{1,5} \u{e9}\u{4e16} [a-z]{0,5}",
         1 => "[a-z]{1,6}[ \t]{1,3}",
+        // non-ASCII text in the middle of a comment: Latin-1 letters, general punctuation (dashes,
+        // curly quotes, bullet, ellipsis, per mille ...), arrows, CJK, an emoji, U+FFFD - but no
+        // Unicode white space, line / paragraph separators or format characters, whose status as
+        // "text" is debatable
+        2 => "([a-z]{1,4} ?)?[\u{c0}-\u{ff}\u{2010}-\u{2027}\u{2030}-\u{205e}\u{2190}-\u{21ff}\u{4e00}-\u{4e2f}\u{1F600}\u{fffd}]{1,3}[ -~]{0,8}",
     ]
 }
 
